@@ -233,7 +233,7 @@ def draw_value(vc, name, keys=()):
     return draw_doc(vc, name, keys)
 
 
-@harness('X6d', targets=[f'{DICTS}.ensure'], props=['C04', 'C16', 'C18', 'C08', 'C02', 'C03'],
+@harness('X6d', targets=[f'{DICTS}.ensure'], props=['C04', 'C16', 'C18', 'C08', 'C02', 'C03', 'C05', 'C11', 'C14'],
          clauses=['exact', 'sets_value', 'present_non_mapping_parent_not_replaced', 'root_rejected'],
          canaries=['canary.never_raises', 'canary.unchanged'],
          assumes=['X6d: d is an arbitrary JSON object; paths of 0..3 arbitrary field names (loop unrolled natively); the value '
@@ -287,7 +287,7 @@ def spec_remove(t, keys):
     return ok, t2
 
 
-@harness('X7d', targets=[f'{DICTS}.remove'], props=['C04', 'C16', 'C02', 'C03'],
+@harness('X7d', targets=[f'{DICTS}.remove'], props=['C04', 'C16', 'C02', 'C03', 'C05', 'C08', 'C10', 'C18'],
          clauses=['exact', 'key_gone', 'only_emptied_parents_removed', 'non_mapping_parent', 'root_rejected'],
          canaries=['canary.never_raises', 'canary.unchanged', 'canary.no_parent_removed'],
          assumes=['X7d: d is an arbitrary JSON object; paths of 0..3 arbitrary field names (the recursion depth is then concrete)'])
@@ -365,7 +365,7 @@ def _subsets(items):
 
 
 @harness('G6', targets=[f'{PROG}.State.from_storage', f'{PROG}.State.store', f'{PROG}.State.purge'],
-         props=['C02', 'C16', 'C14', 'C03', 'C11'],
+         props=['C02', 'C16', 'C14', 'C03', 'C11', 'C05', 'C06', 'C08', 'C15'],
          clauses=['reads_exactly_owned_ids', 'state_iff_record', 'restart_independent',
                   'stores_exactly_changed', 'stores_full_record', 'flushes_last', 'no_other_storage_calls',
                   'purges_exactly_owned_states_subrefs'],
@@ -520,7 +520,7 @@ def _count(conds):
 
 
 @harness('G7', targets=[f'{PROG}.State.extras', f'{PROG}.State.counts', f'{PROG}.State.without_successes'],
-         props=['C02', 'C14', 'C17', 'C03'],
+         props=['C02', 'C14', 'C17', 'C03', 'C05'],
          clauses=['extras_keys', 'extras_counts', 'counts_exact', 'without_successes_exact', 'immutable'],
          canaries=['canary.no_extras', 'canary.counts_everything', 'canary.keeps_all'],
          trusted=['progression.HandlerState by contract G1: purpose (None or a name), success, failure, finished <=> success or failure',
@@ -669,7 +669,7 @@ _G5_TRUSTED = ['format_iso8601/parse_iso8601 as a pair: parse(format(t)) == t, f
 
 @harness('G5', targets=[f'{PROG}.HandlerState.for_storage', f'{PROG}.HandlerState.as_in_storage', f'{PROG}.HandlerState.from_scratch',
                         f'{PROG}.HandlerState.as_active', f'{PROG}.HandlerState.with_purpose'],
-         props=['C02', 'C16', 'C14', 'C11', 'C03'],
+         props=['C02', 'C16', 'C14', 'C11', 'C03', 'C08', 'C10', 'C18'],
          clauses=['record_fields', 'record_is_json', 'as_in_storage_drops_nones', 'from_scratch', 'derivations'],
          canaries=['canary.record_has_no_nones', 'canary.scratch_is_passive'], trusted=_G5_TRUSTED)
 def G5(vc):
@@ -690,7 +690,7 @@ def G5(vc):
 
 
 @harness('G5r', targets=[f'{PROG}.HandlerState.for_storage', f'{PROG}.HandlerState.as_in_storage', f'{PROG}.HandlerState.from_storage'],
-         props=['C02', 'C16', 'C14', 'C11', 'C03'],
+         props=['C02', 'C16', 'C14', 'C11', 'C03', 'C06', 'C08'],
          clauses=['round_trip', 'reload_is_stable'], canaries=['canary.never_finished'], trusted=_G5_TRUSTED)
 def G5r(vc):
     """
@@ -816,7 +816,7 @@ def _g5(vc, round_trip):
 # =========================================================================== G4 (bounded): the ISO-8601 pair on real datetimes
 @bounded('G4', targets=[f'{PROG}.format_iso8601', f'{PROG}.parse_iso8601', f'{PROG}.HandlerState.for_storage',
                         f'{PROG}.HandlerState.from_storage'],
-         props=['C02', 'C16'],
+         props=['C02', 'C16', 'C03', 'C06', 'C08', 'C14'],
          clauses=['parse_format_round_trip', 'format_is_canonical', 'none_passes', 'shape', 'handler_state_round_trip'],
          universe='10^4 (quick) / 10^5 (thorough) seeded datetimes between years 1 and 9999, half of them timezone-aware UTC (as '
                   '_get_basetime() makes them) and half naive, microseconds uniformly in 0..999999 plus the edge values 0, 1, 999999, '
@@ -897,7 +897,7 @@ def _deep_ids(x, out=None):
     return out
 
 
-@harness('G8', targets=[f'{PROG}.deliver_results'], props=['C08', 'C02'],
+@harness('G8', targets=[f'{PROG}.deliver_results'], props=['C08', 'C02', 'C10'],
          clauses=['exception_or_none_delivers_nothing', 'mapping_merged', 'other_stored_as_deep_copy', 'frame', 'outcomes_untouched'],
          canaries=['canary.delivers_nothing', 'canary.patch_always_grows'],
          trusted=['dict.setdefault/update, copy.deepcopy of CPython on real containers with symbolic leaves'],
@@ -1286,7 +1286,7 @@ _E6_ASSUMES = ['E6/E6p: bodies are ARBITRARY JSON objects (any shape: corrupted 
 @harness('E6', targets=[f'{PROGRESS}.StatusProgressStorage.__init__', f'{PROGRESS}.StatusProgressStorage.fetch',
                         f'{PROGRESS}.StatusProgressStorage.store', f'{PROGRESS}.StatusProgressStorage.touch',
                         f'{PROGRESS}.NoWriteStatusProgressStorage.store', f'{PROGRESS}.NoWriteStatusProgressStorage.touch'],
-         props=['C16', 'C04', 'C02', 'C03', 'C11', 'C14'],
+         props=['C16', 'C04', 'C02', 'C03', 'C11', 'C14', 'C08'],
          clauses=['configured_paths', 'fetch_own_record', 'fetch_no_data', 'fetch_corrupted_container_is_no_data', 'store_exact',
                   'touch_exact', 'body_untouched', 'nowrite_writes_nothing'],
          canaries=['canary.fetch_always_none', 'canary.store_keeps_patch', 'canary.touch_always_writes'],
@@ -1309,7 +1309,7 @@ def E6(vc):
 
 
 @harness('E6p', targets=[f'{PROGRESS}.StatusProgressStorage.purge', f'{PROGRESS}.StatusProgressStorage.clear'],
-         props=['C16', 'C04', 'C02', 'C03', 'C11'],
+         props=['C16', 'C04', 'C02', 'C03', 'C11', 'C05', 'C08', 'C10'],
          clauses=['purge_exact', 'purge_complete', 'clear_exact', 'body_untouched'],
          canaries=['canary.purge_never_writes', 'canary.clear_is_identity'],
          trusted=_E6_TRUSTED, assumes=_E6_ASSUMES)
@@ -1539,7 +1539,7 @@ _E7_ASSUMES = ['E7/E7p: bodies are arbitrary JSON objects whose metadata / metad
 
 @harness('E7', targets=[f'{PROGRESS}.AnnotationsProgressStorage.__init__', f'{PROGRESS}.AnnotationsProgressStorage.fetch',
                         f'{PROGRESS}.AnnotationsProgressStorage.store'],
-         props=['C16', 'C04', 'C02', 'C03', 'C11', 'C14'],
+         props=['C16', 'C04', 'C02', 'C03', 'C11', 'C14', 'C06', 'C08'],
          clauses=['configured', 'keys_from_make_keys', 'fetch_decodes_own_annotation', 'fetch_first_present', 'store_encodes_record',
                   'store_every_key', 'store_marker', 'body_untouched'],
          canaries=['canary.fetch_always_none', 'canary.fetch_first_key_only', 'canary.store_one_key', 'canary.store_drops_nones'],
@@ -1564,7 +1564,7 @@ def E7(vc):
 
 
 @harness('E7p', targets=[f'{PROGRESS}.AnnotationsProgressStorage.purge', f'{PROGRESS}.AnnotationsProgressStorage.touch'],
-         props=['C16', 'C04', 'C02', 'C03', 'C11'],
+         props=['C16', 'C04', 'C02', 'C03', 'C11', 'C06', 'C08', 'C09', 'C14', 'C15'],
          clauses=['keys_from_make_keys', 'purge_exact', 'purge_complete', 'purge_no_marker', 'touch_exact', 'touch_marker_iff_written',
                   'body_untouched'],
          canaries=['canary.purge_never_writes', 'canary.touch_always_writes'],
@@ -1613,7 +1613,7 @@ class SubStorage:
                         f'{PROGRESS}.SmartProgressStorage.__init__',
                         f'{DIFFBASE}.MultiDiffBaseStorage.fetch', f'{DIFFBASE}.MultiDiffBaseStorage.store',
                         f'{DIFFBASE}.MultiDiffBaseStorage.build', f'{DIFFBASE}.MultiDiffBaseStorage.__init__'],
-         props=['C16', 'C04', 'C02', 'C03', 'C11', 'C14'],
+         props=['C16', 'C04', 'C02', 'C03', 'C11', 'C14', 'C15', 'C05', 'C06', 'C08', 'C09', 'C10'],
          clauses=['fetch_first_found', 'fetch_stops_at_first', 'write_fans_out_to_all', 'clear_threads_through_all', 'build_threads_through_all',
                   'members_kept', 'smart_is_annotations_then_nowrite_status', 'arguments_passed'],
          canaries=['canary.fetch_asks_everyone', 'canary.always_found'],
@@ -1764,7 +1764,7 @@ class SymPatch:
                         f'{DIFFBASE}.AnnotationsDiffBaseStorage.store', f'{DIFFBASE}.AnnotationsDiffBaseStorage.build',
                         f'{DIFFBASE}.StatusDiffBaseStorage.__init__', f'{DIFFBASE}.StatusDiffBaseStorage.fetch',
                         f'{DIFFBASE}.StatusDiffBaseStorage.store', f'{DIFFBASE}.StatusDiffBaseStorage.build'],
-         props=['C16', 'C04', 'C03', 'C05', 'C14'],
+         props=['C16', 'C04', 'C03', 'C05', 'C14', 'C15', 'C02', 'C08', 'C10', 'C11'],
          clauses=['configured', 'keys_from_make_keys', 'fetch_decodes_own_annotation', 'fetch_first_present', 'store_every_key', 'store_marker',
                   'build_removes_own_keys', 'status_fetch', 'status_store_exact', 'status_build_removes_own_field', 'body_untouched'],
          canaries=['canary.fetch_always_none', 'canary.store_one_key', 'canary.status_fetch_none', 'canary.status_build_identity'],
@@ -2118,7 +2118,7 @@ def items_match(vc, got, ref):
     return And(True, *conds)
 
 
-@harness('E3d', targets=[f'{DIFFS}.diff_iter', f'{DIFFS}.reduce_iter'], props=['C04', 'C05', 'C03', 'C15'],
+@harness('E3d', targets=[f'{DIFFS}.diff_iter', f'{DIFFS}.reduce_iter'], props=['C04', 'C05', 'C03', 'C15', 'C10', 'C14'],
          clauses=['empty_iff_equal', 'items_exact', 'scoped', 'reduce_is_diff_of_resolved', 'pure'],
          canaries=['canary.never_empty', 'canary.always_empty'],
          trusted=['frozenset key algebra / structural pattern matching of CPython on real dicts of <= 2 keys'],
@@ -2193,7 +2193,7 @@ def ref_remove(d, path):
 @harness('E9b', targets=[f'{DIFFBASE}.DiffBaseStorage.build', f'{DIFFBASE}.DiffBaseStorage.__init__',
                          f'{PROGRESS}.StatusProgressStorage.field', f'{PROGRESS}.StatusProgressStorage.touch_field',
                          f'{DIFFBASE}.StatusDiffBaseStorage.field'],
-         props=['C04', 'C16'],
+         props=['C04', 'C16', 'C15', 'C14', 'C05'],
          clauses=['ignored_fields_removed', 'undeletable_ignored_field_skipped', 'ignored_fields_materialised', 'field_setters', 'pure'],
          canaries=['canary.nothing_ignored'],
          trusted=['copy.deepcopy: an equal, unshared copy of real containers (leaves are immutable values)',
